@@ -158,8 +158,11 @@ def dict_wf(ex, d):
     key, has, idx = p["dkey"][d.t], p["dhas"][d.t], p["didx"][d.t]
     return z3.And(
         n >= 0,
-        z3.ForAll([i], z3.Implies(z3.And(0 <= i, i < n), z3.And(has[key[i]], idx[key[i]] == i)), patterns=[key[i]]),
-        z3.ForAll([k], z3.Implies(has[k], z3.And(0 <= idx[k], idx[k] < n, key[idx[k]] == k)), patterns=[has[k]]),
+        z3.ForAll([i], z3.Implies(z3.And(0 <= i, i < n), z3.And(has[key[i]], idx[key[i]] == i)), patterns=[key[i]], qid="dict_wf_keys"),
+        # split so that no instance creates a term that triggers the other axiom again (key[idx[key[i]]] for an index out of range
+        # would otherwise start an unbounded chain)
+        z3.ForAll([k], z3.Implies(has[k], z3.And(0 <= idx[k], idx[k] < n)), patterns=[has[k]], qid="dict_wf_has"),
+        z3.ForAll([k], z3.Implies(has[k], key[idx[k]] == k), patterns=[key[idx[k]]], qid="dict_wf_back"),
     )
 
 
